@@ -483,6 +483,22 @@ func (fc *FnCtx) trRegexpMethod(st *State, call *ast.CallExpr, fn *types.Func, r
 				fc.w.needDynRe = true
 				return []Val{boolVal("(rematchdyn " + pat.T + " " + a.T + ")")}, true
 			}
+			// a regex object whose pattern is not known here (a parameter): its matches are
+			// described by uninterpreted predicates over the object's identity
+			id := fc.regexObjID(st, rv)
+			switch fn.Name() {
+			case "FindStringIndex", "FindIndex":
+				sv := fc.tr(st, call.Args[0])
+				loc := fc.freshVal(st, "re_loc", SIL, nil)
+				a := "(select (ints " + loc.T + ") 0)"
+				b := "(select (ints " + loc.T + ") 1)"
+				st.addAssume("(= (not (= (illen " + loc.T + ") 0)) (reobj_any " + id + " " + sv.T + "))")
+				st.addAssume("(or (= (illen " + loc.T + ") 0) (and (= (illen " + loc.T + ") 2) (<= 0 " + a + ") (<= " + a + " " + b + ") (<= " + b + " (slen " + sv.T + ")) (reobj_span " + id + " (ssub " + sv.T + " " + a + " " + b + "))))")
+				return []Val{loc}, true
+			case "MatchString", "Match":
+				sv := fc.tr(st, call.Args[0])
+				return []Val{boolVal("(reobj_any " + id + " " + sv.T + ")")}, true
+			}
 		}
 		return nil, false
 	}
@@ -539,4 +555,44 @@ func (fc *FnCtx) trRegexpMethod(st *State, call *ast.CallExpr, fn *types.Func, r
 		return []Val{ms}, true
 	}
 	return nil, false
+}
+
+// regexObjID: an integer constant standing for the identity of a regex object.
+func (fc *FnCtx) regexObjID(st *State, rv Val) string {
+	k := rv.Rec + ".$id"
+	if v, ok := st.env[k]; ok {
+		return v.T
+	}
+	v := fc.initialVal(k, SInt, nil)
+	return v.T
+}
+
+// spanFacts: facts about a text matched entirely by the pattern (positions from 0).
+func (ri *RegexInfo) spanFacts(m string) string {
+	fs := []string{fmt.Sprintf("(>= (slen %s) %d)", m, ri.MinLen)}
+	for i, bs := range ri.Prefix {
+		fs = append(fs, byteSetTerm(bs, fmt.Sprintf("(at %s %d)", m, i)))
+	}
+	for i, bs := range ri.Suffix {
+		fs = append(fs, byteSetTerm(bs, fmt.Sprintf("(at %s (- (slen %s) %d))", m, m, i+1)))
+	}
+	return and(fs...)
+}
+
+// bindRegexArg: a regex with a known literal is passed to a function under contract: what
+// the callee says about spans of its parameter is linked to the literal's T2 facts.
+func (fc *FnCtx) bindRegexArg(st *State, argExpr ast.Expr, v Val) {
+	if v.S != SRec || v.Rec == "" {
+		return
+	}
+	lit, ok := fc.regexLiteralOf(argExpr)
+	if !ok {
+		return
+	}
+	ri := fc.w.regexInfo(lit)
+	if ri.Err != "" {
+		return
+	}
+	id := fc.regexObjID(st, v)
+	st.addAssume("(forall ((m Str)) (! (=> (reobj_span " + id + " m) " + ri.spanFacts("m") + ") :pattern ((reobj_span " + id + " m))))")
 }
